@@ -37,6 +37,7 @@ pub fn fault_name(f: &WireFault) -> &'static str {
         WireFault::RawSig { .. } => "raw-sig",
         WireFault::RawPk { .. } => "raw-pk",
         WireFault::ModelMade => "model-made",
+        WireFault::Chain { .. } => "chain-of-elements",
     }
 }
 
@@ -263,6 +264,23 @@ pub fn apply_fault(w: &World, env: usize, fault: &WireFault) -> Mutated {
             let l = (m.pk.len() as i64 + *delta as i64).max(0) as usize;
             m.pk = Rng::new(*cseed).bytes(l);
         }
+        WireFault::Chain { n: count, adjust_pk } => match parts.as_ref() {
+            Some(p) if m.pk.len() > 4 => {
+                let last = &p[p.len() - 1];
+                let lastsig = e.sig[last.offset..].to_vec();
+                let mut s = count.to_be_bytes().to_vec();
+                for _ in 0..*count {
+                    s.extend_from_slice(&lastsig);
+                    s.extend_from_slice(&m.pk[4..]);
+                }
+                s.extend_from_slice(&lastsig);
+                m.sig = s;
+                if *adjust_pk {
+                    m.pk[0..4].copy_from_slice(&(count + 1).to_be_bytes());
+                }
+            }
+            _ => m.skipped = true,
+        },
         WireFault::ModelMade => {
             let k = &w.keys[e.key];
             match k.model.sign(e.counter, &e.msg, LsPolicy::Rfc, model::CConv::Library) {
